@@ -7,6 +7,6 @@ RULE = ("histories enumerated by TLC (Gen_WkdIbe.tla, family 'adjust') over l = 
         "(WkdIbe.tla) and requires every recorded slot list, group element, decrypted message and verdict to be exactly the predicted one. "
         "distinct = (family, step kinds with the free/fixed/hidden shape of every list, flags, configuration)")
 def run(tier):
-    return run_family("C14", tier, "adjust", 60, 12, RULE, cfgs_quick=("asm", "p32"))
+    return run_family("C14", tier, "adjust", 60, 48, RULE, cfgs_quick=("asm", "p32"))
 def replay(path):
     return replay_event("C14", path, WK, key_of)
